@@ -4,6 +4,8 @@ trace valid.: accept/reject outcome, completed number, kind and decoded symbol o
 import vlib, onedim
 
 def wanted(ev, tag):
+    if ev["op"] == "eansweep":
+        return True
     return ev.get("sym") == "ean" and (onedim.is_roundtrip(tag) or tag in ("reject-representable", "accept-unrepresentable", "content", "metadata"))
 
 def run(tier):
@@ -12,7 +14,18 @@ def run(tier):
     chk.add_model([dict(module="MC_EAN.tla", cfg="MC_EAN.cfg", workers=4)])
     drive = vlib.build_harness(chk.work)
     jobs = onedim.ean_jobs(chk.rng, quick)
-    evs, _ = onedim.judge(chk, drive, jobs, "Trace1D", "Trace1D.cfg", 10 if quick else 16, wanted)
+    # compact acceptance table of EAN-8: appended digit and accepted final digits for 7-digit prefixes
+    # (quick: 4 seeded ranges of 2 500 prefixes; thorough: all 10^7 prefixes = 10^8 eight-digit strings, in 400 ranges)
+    if quick:
+        sweeps = [dict(op="eansweep", a=[chk.rng.randrange(0, 10 ** 7 - 2500), 2500], content=[], p=[]) for _ in range(4)]
+    else:
+        sweeps = [dict(op="eansweep", a=[k * 25000, 25000], content=[], p=[]) for k in range(400)]
+    jobs += sweeps
+    evs, _ = onedim.judge(chk, drive, jobs, "Trace1D", "Trace1D.cfg", 10 if quick else 16, wanted, timeout=7000)
+    chk.cov["ean8_prefixes_swept"] = sum(e["a"][1] for e in evs if e["op"] == "eansweep")
+    chk.cov["ean8_strings_decided"] = 11 * chk.cov["ean8_prefixes_swept"]
+    chk.cov["exhaustive_ean8"] = chk.cov["ean8_prefixes_swept"] == 10 ** 7
+    evs = [e for e in evs if e["op"] == "encode"]
     ok = [e for e in evs if e["res"]["kind"] == "ok"]
     cells13 = {(e["content"][0], pos, e["content"][pos]) for e in ok if len(e["res"]["content"]) == 13 for pos in range(1, 12)}
     cells8 = {(pos, e["content"][pos]) for e in ok if len(e["res"]["content"]) == 8 for pos in range(7)}
@@ -24,7 +37,7 @@ def run(tier):
     if (len(cells13) < 1100 or len(cells8) < 70) and not chk.violations:
         raise vlib.Inconclusive("coverage: not every (first digit, position, digit) cell was decoded")
     chk.assumptions += ["EAN L patterns and parity table written from ISO/IEC 15420 (R = complement, G = reverse of R; distinctness ASSUMEd)",
-                        "10^7/10^8 exhaustive acceptance tables are not part of this revision; the check automaton is explored completely at the model level"]
+                        "the 10^7-prefix / 10^8-string EAN-8 acceptance table is exhaustive only in the thorough tier (sampled ranges in the quick tier); 13-digit acceptance is sampled"]
     return chk.finish()
 
 def replay(path):
